@@ -205,8 +205,10 @@ def finish(prop, tier, seed, t0, agg, extra_cov, mine, unknown_paths, known_line
               sum(f["fired"] for f in cov["faults"].values()), agg["foreign"], agg["crashes"], wall))
     if machinery_error:
         print("[check %s] MACHINERY FAULT: %s" % (prop, machinery_error))
-        return 2
-    return 1 if unknown_paths else 0
+    # a reproduced violation is a verdict even if another alarm could not be reproduced
+    if unknown_paths:
+        return 1
+    return 2 if machinery_error else 0
 
 
 def run_check(prop, tier, seed):
@@ -291,7 +293,7 @@ def run_check(prop, tier, seed):
         if getattr(v, "prebuilt_replay", None):
             paths.append(v.prebuilt_replay)
             continue
-        path, ok, info = D.gate_and_minimise(binary, v, prop, replay_dir, budget_s=45)
+        path, ok, info = D.gate_and_minimise(binary, v, prop, replay_dir, budget_s=45, known_args=kargs)
         print("[check %s] %s at %s in %s (%d occurrence(s)): %s" % (prop, v.oracle, v.op_kind,
                                                                    v.universe, count, v.msg))
         if not ok:
@@ -315,7 +317,8 @@ def replay_file(prop, path):
     except B.BuildError as e:
         print("build failed:", e)
         return 2
-    o, at, kind, th, v = D.observe(binary, d["universe"], d["world"], d["ops"], fl, want=d["expect"])
+    o, at, kind, th, v = D.observe(binary, d["universe"], d["world"], d["ops"], fl,
+                                   D.known_args_for(prop, D.load_known()), want=d["expect"])
     if o is None:
         print("[replay] no violation: the tree no longer violates %s on this history" % prop)
         return 0
